@@ -38,3 +38,25 @@ Proof. exact w_decrst_eq. Qed.
 Check C17_source_terminal_decrst : forall t ms, TInv t -> w_decrst Om (zabs t) (wabs t) ms = wres (foldM decrst_one ms t).
 Print Assumptions C17_source_terminal_decrst.
 
+(** further methods regenerated in W-mode (swap / Buffer::new / tabs / dirty-list events, the buffer.resize query) *)
+(** Terminal::save_cursor (the column clamp included) *)
+Theorem C17_source_save_cursor : forall t, ZW t -> w_save_cursor Om (zabs t) (wabs t) = wres (Ok (save_cursor t)).
+Proof. exact w_save_cursor_eq. Qed.
+Check C17_source_save_cursor : forall t, ZW t -> w_save_cursor Om (zabs t) (wabs t) = wres (Ok (save_cursor t)).
+Print Assumptions C17_source_save_cursor.
+
+(** Terminal::restore_cursor *)
+Theorem C17_source_restore_cursor : forall t, ZW t -> w_restore_cursor Om (zabs t) (wabs t) = wres (Ok (restore_cursor t)).
+Proof. exact w_restore_cursor_eq. Qed.
+Check C17_source_restore_cursor : forall t, ZW t -> w_restore_cursor Om (zabs t) (wabs t) = wres (Ok (restore_cursor t)).
+Print Assumptions C17_source_restore_cursor.
+
+From Avt Require Import Proofs.StepC17Switch.
+(** C17.5 "the primary and the alternate screen keep separate saved contexts": switching screens (47 / 1047, in any list of
+    DEC modes without 1048 / 1049) or toggling any other DEC mode keeps the saved context of EACH screen, up to the clamp into
+    the current size that the return to a resized primary performs - a `take` instead of a swap, or a reset of the parked
+    context, breaks it *)
+Theorem C17_switch : forall p p' t f t', TInv t -> execute t f = Ok t' -> holds_C17_switch (mkVt p t) f (mkVt p' t') = true.
+Proof. exact C17_switch_holds. Qed.
+Check C17_switch : forall p p' t f t', TInv t -> execute t f = Ok t' -> holds_C17_switch (mkVt p t) f (mkVt p' t') = true.
+Print Assumptions C17_switch.
